@@ -273,6 +273,9 @@ def make_data(c):
     shape = tuple(c['shape'])
     x = np.array([val_dec(v) for v in c['values']], dtype=float).reshape(shape)
     y = np.array(c['y'], dtype=int).reshape(shape)
+    if c.get('z') is not None:
+        z = np.array([val_dec(v) for v in c['z']], dtype=float).reshape(shape)
+        return G.Data(x=x, y=y, z=z), x, y
     return G.Data(x=x, y=y), x, y
 
 
@@ -918,7 +921,9 @@ def check_hist(R, c, impl, mo, count=True):
     return bad
 
 
-RANGES = [(0, 4), (4, 0), (-2, 2), (1, 3), (0, 1), (1, 1), (-1, 4), (0, 3), ('1/2', 4), (2, '1/4'), (1, 8), (-2, 0), (0, 16), (3, 3), ('-1/2', '7/2')]
+RANGES = [(0, 4), (4, 0), (-2, 2), (1, 3), (0, 1), (1, 1), (-1, 4), (0, 3), ('1/2', 4), (2, '1/4'), (1, 8), (-2, 0), (0, 16), (3, 3), ('-1/2', '7/2'),
+          # upper end negative in bin space and equal to data values: linear below zero (also reversed), log below one
+          (-2, -1), ('-1/2', -2), (-2, '-1/2'), ('1/4', '1/2'), ('1/2', '1/4'), (-1, -1)]
 
 
 CRASH_PROBE = r'''
@@ -956,10 +961,9 @@ def crash_probe(R):
     return True
 
 
-def stream_hist(R):
+def stream_hist(R, safe=True):
     pool = val_pool()
     cases = []
-    safe = crash_probe(R)
     # (i) small-scope exhaustive: a fixed point set that sits on range ends, interior edges and inside bins
     xs = [-8, -4, -2, 0, 1, 2, 3, 4, 6, 8, 12, 16, 5, 16, 'nan', 'inf', '-inf', 0, 7, 2]
     ws = [4, 8, -4, 2, 4, 12, 1, 4, 4, 6, 4, 2, 4, 4, 4, 4, 4, 8, 4, 4]
@@ -1059,6 +1063,246 @@ def stream_hist_magnitude(R):
     R.stream('hist_magnitude', cases=len(cases), model_cases=len(lines), exhaustive=True,
              bound='lower end m*2**e, upper end m\'*2**(e+d) for e in %s, d in {1,2,3,4,6,8}; data = {1,3,5,7}*2**(e-1..e+d+1) plus both range ends (the upper one three '
                    'times), NaN, +-inf; bins 1..7; linear and log; reversed ranges, weights and selections rotate; 2-d with the y axis across the same magnitudes' % (exps,))
+
+
+# ------------------------------------------------------------------ state reuse: one subset-state object, many calls
+MEMO_KINDS = ['ineq', 'and', 'or', 'not', 'range_pix', 'mask', 'xor_like']
+
+
+def reuse_sel(rng, shape):
+    nd = len(shape)
+    n = int(np.prod(shape))
+    k = rng.choice(MEMO_KINDS)
+    ineq = ['ineq', rng.randrange(0, 4)]
+    a = rng.randrange(nd)
+    rp = ['range_pix', a, rng.randrange(0, shape[a]), shape[a]]
+    if k == 'ineq':
+        return ineq
+    if k == 'and':
+        return ['and', ineq, rp]
+    if k == 'or':
+        return ['or', ineq, ['range_pix', a, 0, 0]]
+    if k == 'not':
+        return ['not', ineq]
+    if k == 'range_pix':
+        return rp
+    if k == 'mask':
+        return ['mask', [int(rng.random() < .7) for _ in range(n)]]
+    return ['and', ['not', ['ineq', 4]], ['or', ineq, rp]]
+
+
+def reuse_case(R, i):
+    """a sequence of calls that all use the SAME subset-state object: statistics on different attributes / filters / views,
+    histograms, masks; x has NaN / +-inf / negatives inside the selection, z is finite and positive"""
+    rng = R.subrng('reuse', i)
+    nd = rng.choice([1, 2, 2, 3])
+    shape = [rng.choice([2, 3, 4, 5]) for _ in range(nd)]
+    n = int(np.prod(shape))
+    pool = ['nan', 'nan', 'inf', '-inf'] + list(range(-8, 17))
+    views = [None]
+    for _ in range(2):
+        for _ in range(20):
+            v = [rand_slice(rng, s, strided=rng.random() < .3) for s in shape[:rng.randrange(1, nd + 1)]]
+            if nonempty_view(shape, v):
+                views.append(v)
+                break
+    ops = []
+    for k in range(rng.randrange(3, 8)):
+        kind = rng.choice(['stat', 'stat', 'stat', 'stat', 'hist', 'mask'])
+        view = rng.choice(views) if rng.random() < .5 else None
+        if kind == 'stat':
+            axk = rng.choice(['none', 'int', 'tuple', 'all'])
+            axis = None if axk == 'none' else rng.randrange(nd) if axk == 'int' else list(range(nd)) if axk == 'all' else sorted(rng.sample(range(nd), rng.randrange(0, nd + 1)))
+            stat = rng.choice(STATS)
+            # the first call is on the attribute with non-finite / negative values, with a filter that removes some of the selection
+            att = 'x' if k == 0 else rng.choice(['x', 'z', 'z'])
+            ops.append({'op': 'stat', 'att': att, 'stat': stat, 'pct': rng.choice([0, 25, 50, 100]) if stat == 'percentile' else None, 'axis': axis,
+                        'finite': True if k == 0 else rng.random() < .7, 'positive': rng.random() < (.5 if k == 0 else .25), 'view': view})
+        elif kind == 'hist':
+            lo = rng.randrange(-8, 8)
+            ops.append({'op': 'hist', 'att': rng.choice(['x', 'z']), 'range': [str(Fraction(lo, 4)), str(Fraction(lo + rng.randrange(1, 24), 4))], 'bins': rng.randrange(1, 6)})
+        else:
+            ops.append({'op': 'mask', 'view': view})
+    return {'stream': 'state_reuse', 'sub': i, 'shape': shape, 'values': [rng.choice(pool) for _ in range(n)], 'z': [rng.randrange(1, 17) for _ in range(n)],
+            'y': [rng.randrange(0, 6) for _ in range(n)], 'sel': reuse_sel(rng, shape), 'ops': ops}
+
+
+def run_reuse(c):
+    """run the sequence on ONE state object; returns None or the description of the first step that deviates
+    (a wrong result, or a mask that is no longer what it was)"""
+    d, x, y = make_data(c)
+    shape = tuple(c['shape'])
+    arrs = {'x': x, 'z': np.array([val_dec(v) for v in c['z']], dtype=float).reshape(shape)}
+    ref = ref_mask(c['sel'], shape, y)
+    state = build_state(c['sel'], d, G)
+    seen_views = []
+    for k, op in enumerate(c['ops']):
+        bad = None
+        v = None if op.get('view') is None else tuple(vent(t) for t in op['view'])
+        try:
+            with warnings.catch_warnings():
+                warnings.simplefilter('ignore')
+                if op['op'] == 'stat':
+                    ax = tuple(op['axis']) if isinstance(op['axis'], list) else op['axis']
+                    exp, amb = textbook(arrs[op['att']], ref, op['stat'], ax, op['finite'], op['positive'], op['pct'], v)
+                    got = np.asarray(d.compute_statistic(op['stat'], d.id[op['att']], subset_state=state, axis=ax, finite=op['finite'],
+                                                         positive=op['positive'], percentile=op['pct'], view=v), dtype=float)
+                    if got.shape != exp.shape or not same(got, exp, amb):
+                        bad = {'result': got.tolist(), 'expected': exp.tolist()}
+                elif op['op'] == 'hist':
+                    a = arrs[op['att']].ravel()
+                    hc = {'x': [('nan' if t != t else 'inf' if t == INF else '-inf' if t == -INF else int(round(t * 4))) for t in a.tolist()], 'y': None, 'w': None,
+                          'sel': ref.ravel().astype(int).tolist(), 'range': [op['range']], 'bins': [op['bins']], 'log': None}
+                    H = np.asarray(d.compute_histogram([d.id[op['att']]], range=[tuple(float(Fraction(t)) for t in op['range'])], bins=[op['bins']],
+                                                       subset_state=state), dtype=float)
+                    ok, first = hist_expected_ok(hc, H) if H.shape == (op['bins'],) else (False, None)
+                    if not ok:
+                        bad = {'histogram': H.tolist(), 'expected(one admissible)': None if first is None else np.asarray(first, dtype=float).tolist()}
+                else:
+                    got = np.asarray(d.get_mask(state, view=v))
+                    exp = ref if v is None else ref[v]
+                    if got.shape != exp.shape or not np.array_equal(got, exp):
+                        bad = {'mask': got.astype(int).tolist(), 'expected': exp.astype(int).tolist()}
+        except Exception as e:  # noqa
+            bad = {'raises': type(e).__name__, 'message': str(e)[:120]}
+        if bad is not None:
+            return dict(bad, step=k, op=op, what='result of step %d differs from the definition' % k)
+        # operands must not be altered: re-read the mask for every view used so far
+        if op.get('view') not in seen_views:
+            seen_views.append(op.get('view'))
+        for vv in seen_views + [None]:
+            vo = None if vv is None else tuple(vent(t) for t in vv)
+            m = np.asarray(d.get_mask(state, view=vo))
+            e = ref if vo is None else ref[vo]
+            if m.shape != e.shape or not np.array_equal(m, e):
+                return {'step': k, 'op': op, 'what': 'after step %d the mask of the same state object (view %r) is no longer what it was' % (k, vv),
+                        'mask': m.astype(int).tolist(), 'expected': e.astype(int).tolist()}
+    return None
+
+
+def shrink_reuse(c, bad):
+    cur = dict(c, ops=c['ops'][:bad['step'] + 1])
+    i = 0
+    while i < len(cur['ops']) - 1 and len(cur['ops']) > 2:
+        t = dict(cur, ops=cur['ops'][:i] + cur['ops'][i + 1:])
+        if run_reuse(t) is not None:
+            cur = t
+        else:
+            i += 1
+    return cur
+
+
+def check_reuse(R, c, count=True):
+    bad = run_reuse(c)
+    if count:
+        R.count((tuple(c['shape']), tuple(c['values']), repr(c['sel']), repr(c['ops'])), nontrivial=True, stream=c['stream'], sel=sel_kind(c['sel']),
+                reuse_ops=len(c['ops']))
+    if bad is not None:
+        small = shrink_reuse(c, bad)
+        R.fail('oracle', small, run_reuse(small) or bad, key=None)
+    return bad
+
+
+def stream_state_reuse(R):
+    G.load()
+    N = R.pick(1500, 12000)
+    cases = [reuse_case(R, i) for i in range(N)]
+    for c in cases:
+        check_reuse(R, c)
+    R.sample(cases[0])
+    R.stream('state_reuse', cases=N, exhaustive=False,
+             bound='1..3-d, sizes 2..5; one subset-state object (inequality, And, Or, Invert, nested composite, pixel range, mask) used for 3..7 calls in a row: '
+                   'statistics on x (NaN/+-inf/negatives) and z (finite, positive) with varying statistic / axis / finite / positive / view (views repeat), '
+                   'histograms, masks; every result against the definition and the mask re-read after every step (oracle only)')
+
+
+# ------------------------------------------------------------------ corpus of the historic defect inputs (always first)
+def corpus():
+    """the inputs of the five repaired defects and of the seeded changes C10-1..4, as ordinary cases"""
+    st, hi, ru = [], [], []
+    vals24 = [(k * 7) % 25 - 8 for k in range(24)]
+    y24 = [(k * 5) % 6 for k in range(24)]
+    b = {'stream': 'corpus', 'shape': [2, 3, 4], 'values': vals24, 'y': y24, 'stat': 'sum', 'pct': None, 'finite': True, 'positive': False, 'ncm': 40000000}
+    # F-C10: strided view + subset + axis
+    m = np.zeros((2, 3, 4), dtype=int)
+    m[1, 2, 1:3] = 1
+    st.append(dict(b, sel=['mask', m.ravel().tolist()], view=[[None, None, None], [0, None, 2]], axis=[0], what='F-C10 strided view + subset + axis'))
+    st.append(dict(b, sel=['mask', m.ravel().tolist()], view=[[None, None, 2]], axis=1, what='F-C10 strided view + subset + axis'))
+    # subset + all axes
+    st.append(dict(b, sel=['ineq', 1], view=None, axis=[0, 1, 2], what='subset + all axes'))
+    st.append(dict(b, shape=[6], values=vals24[:6], y=y24[:6], sel=['ineq', 1], view=None, axis=0, what='subset + axis 0 of a 1-d dataset'))
+    # SliceSubsetState + axis
+    st.append(dict(b, sel=['slice', [[None, None, None], [1, 2, None], [1, 3, None]]], view=None, axis=[0, 1], what='SliceSubsetState + axis: full-size result'))
+    # seeded C10-1
+    n = 3 * 12 * 4
+    yy = np.zeros((3, 12, 4), dtype=int)
+    yy[:, 7:10, 1:3] = 5
+    for view, ax in (([1, [6, 11, None]], None), ([1, [6, 11, None]], [0]), ([2, [5, 12, None], [0, 3, None]], [1]), ([-1, [-4, None, None]], None)):
+        st.append(dict(b, shape=[3, 12, 4], values=[(k % 25) - 8 for k in range(n)], y=yy.ravel().tolist(), sel=['ineq', 2], view=view, axis=ax,
+                       what='seeded C10-1: integer entry before an offset slice'))
+    # histograms: negative upper edge in bin space that coincides with data values (fix f645358 / seeded C10-4)
+    xs = [-12, -12, -10, -8, -4, -4, -4, -4, -6, 0, 4, -16, 'nan']           # /4: -3 -3 -2.5 -2 -1 -1 -1 -1 -1.5 0 1 -4
+    hb = {'stream': 'corpus', 'x': xs, 'y': None, 'w': None, 'sel': None, 'log': None}
+    hi.append(dict(hb, range=[['-3', '-1']], bins=[4], what='negative upper edge'))
+    hi.append(dict(hb, range=[['-1', '-3']], bins=[2], sel=[int(i % 4 != 1) for i in range(len(xs))], what='negative upper edge, reversed, subset'))
+    hi.append(dict(hb, range=[['-9/2', '-1']], bins=[3], w=[i + 1 for i in range(len(xs))], what='negative upper edge, weighted'))
+    ps = ['1@-1', '1@-1', '1@-1', '1@-6', '3@-5', '3@-4', '5@-4', '1@-3', '3@-3', '1@0', 'nan', 'inf']
+    hi.append(dict(hb, x=ps, range=[['1/64', '1/2']], bins=[5], log=[True], what='log range ending below one (model)'))
+    hi.append(dict(hb, x=ps, range=[['1/100', '1/2']], bins=[3], log=[True], what='log range ending below one'))
+    xpos = [0, 4, 8, 12, 2, 6, 10, 1, 3, 5, 7, 9, 11]
+    hi.append(dict(hb, x=xpos, y=xs, range=[['0', '3'], ['-3', '-1']], bins=[2, 2], what='2-d, negative upper edge on the second axis'))
+    hi.append(dict(hb, x=xs, y=xpos, range=[['-3', '-1'], ['0', '3']], bins=[2, 3], w=[i + 1 for i in range(len(xs))], what='2-d, negative upper edge on the first axis, weighted'))
+    hi.append(dict(hb, x=[4] * len(ps), y=ps, range=[['0', '2'], ['1/64', '1/2']], bins=[1, 5], log=[False, True], what='2-d, log axis ending below one'))
+    # seeded C10-2: log, upper end = data value at large / small magnitude
+    for e in (30, -34):
+        big = ['1@%d' % (e + 4)] * 3 + ['1@%d' % e, '3@%d' % (e + 1), '5@%d' % (e + 1), '3@%d' % (e + 2), '7@%d' % e]
+        hi.append(dict(hb, x=big, range=[[p2(1, e), p2(1, e + 4)]], bins=[4], log=[True], what='seeded C10-2: log, upper end = data value, magnitude 2**%d' % (e + 4)))
+    # zero-width ranges away from zero (the ones at zero are probed in a child process)
+    hi.append(dict(hb, range=[['-1', '-1']], bins=[3], what='zero-width range'))
+    # seeded C10-3: the same state object for two statistics
+    ru.append({'stream': 'corpus', 'shape': [8], 'values': [4, 'nan', 12, 'inf', 20, 24, 28, 32], 'z': [40, 80, 120, 160, 200, 240, 280, 320],
+               'y': [0, 5, 5, 5, 5, 5, 0, 0], 'sel': ['ineq', 2],
+               'ops': [{'op': 'stat', 'att': 'x', 'stat': 'mean', 'pct': None, 'axis': None, 'finite': True, 'positive': False, 'view': None},
+                       {'op': 'stat', 'att': 'z', 'stat': 'sum', 'pct': None, 'axis': None, 'finite': True, 'positive': False, 'view': None},
+                       {'op': 'hist', 'att': 'z', 'range': ['0', '100'], 'bins': 4}],
+               'what': 'seeded C10-3: same state object, second statistic after a filtering first one'})
+    ru.append({'stream': 'corpus', 'shape': [3, 4], 'values': [-4, 4, -8, 8, 12, -12, 16, -16, 4, 4, -4, -4], 'z': list(range(1, 13)),
+               'y': [5, 5, 5, 0, 5, 5, 5, 0, 0, 5, 5, 5], 'sel': ['and', ['ineq', 2], ['range_pix', 1, 0, 3]],
+               'ops': [{'op': 'stat', 'att': 'x', 'stat': 'maximum', 'pct': None, 'axis': 0, 'finite': True, 'positive': True, 'view': None},
+                       {'op': 'stat', 'att': 'z', 'stat': 'mean', 'pct': None, 'axis': 0, 'finite': True, 'positive': False, 'view': None},
+                       {'op': 'stat', 'att': 'x', 'stat': 'minimum', 'pct': None, 'axis': 1, 'finite': True, 'positive': False, 'view': None},
+                       {'op': 'mask', 'view': None}],
+               'what': 'seeded C10-3: positive filter, with axes, composite state'})
+    return st, hi, ru
+
+
+def stream_corpus(R):
+    G.load()
+    safe = crash_probe(R)          # zero-width range at zero (fix bd4449f), in a child process
+    st, hi, ru = corpus()
+    ctx, lines = [], []
+    for c in st:
+        d, x, y = make_data(c)
+        mask = None if c['sel'] is None else ref_mask(c['sel'], tuple(c['shape']), y)
+        ctx.append((d, x, mask))
+        lines.append(model_line_stat(c, x, mask))
+    hl, hidx = [], []
+    for i, c in enumerate(hi):
+        ln = model_line_hist(c)
+        if ln is not None:
+            hidx.append(i)
+            hl.append(ln)
+    outs = R.model(lines + hl)
+    for c, (d, x, mask), mo in zip(st, ctx, outs[:len(lines)]):
+        check_stat(R, c, run_impl_stat(c, d), mo, x, mask)
+    hm = dict(zip(hidx, outs[len(lines):]))
+    for i, c in enumerate(hi):
+        check_hist(R, c, run_impl_hist(c), hm.get(i))
+    for c in ru:
+        check_reuse(R, c)
+    R.stream('corpus', cases=len(st) + len(hi) + len(ru) + 1, exhaustive=True,
+             bound='fixed inputs of the five repaired defects (3d0c683, 1865215, 41cd7c3, bd4449f in a child process, f645358) and of the seeded changes C10-1..C10-4')
+    return safe
 
 
 # ------------------------------------------------------------------ what the viewers plot
@@ -1202,10 +1446,12 @@ def run(R):
               'limit where the chunk loop is reachable, plus a seeded random stream of larger cases; histograms: exhaustive grid of ranges x bins x log x '
               'weights x selections over a fixed point set, plus random 1-d/2-d cases; a case is non-trivial when the expected result has a non-NaN lane '
               '(statistics) or a non-zero bin (histograms); distinct = distinct canonical inputs')
+    safe = stream_corpus(R)
+    stream_state_reuse(R)
     stream_stat_exhaustive(R)
     stream_stat_random(R)
     stream_stat_intviews(R)
-    stream_hist(R)
+    stream_hist(R, safe)
     stream_hist_magnitude(R)
     stream_viewers(R)
     stream_malformed(R)
@@ -1215,7 +1461,10 @@ def replay(R, case):
     G.load()
     st = case.get('stream', '')
     out = {'case': case}
-    if st.startswith('stat'):
+    if 'ops' in case:
+        bad = run_reuse(case)
+        out.update(detail=bad, violates=bad is not None)
+    elif st.startswith('stat') or (st == 'corpus' and 'values' in case):
         d, x, y = make_data(case)
         mask = None if case['sel'] is None else ref_mask(case['sel'], tuple(case['shape']), y)
         impl = run_impl_stat(case, d)
@@ -1232,7 +1481,7 @@ def replay(R, case):
         import sys
         p = subprocess.run([sys.executable, '-W', 'ignore', '-c', CRASH_PROBE], stdout=subprocess.PIPE, stderr=subprocess.PIPE)
         out.update(child_returncode=p.returncode, violates=p.returncode != 0)
-    elif st.startswith('hist'):
+    elif st.startswith('hist') or (st == 'corpus' and 'bins' in case):
         impl = run_impl_hist(case)
         out['implementation'] = impl[1].tolist() if impl[0] == 'ok' else list(impl)
         if hist_defined(case):
